@@ -13,6 +13,9 @@ import (
 // VerifSetBufferSizes overrides the GOMAXPROCS-derived buffer limits (call before constructing a cache).
 func VerifSetBufferSizes(writeMax uint32, stripedMax int) {
 	if writeMax > 0 {
+		if writeMax < minWriteBufferSize {
+			writeMax = minWriteBufferSize // a small-scope maximum below the code's own initial size is not a legal configuration
+		}
 		maxWriteBufferSize = writeMax
 	}
 	if stripedMax > 0 {
